@@ -113,8 +113,62 @@ def check(run):
             if len(run._corr) < 3:
                 t = next(t for t in range(n) if I[t] != M[t])
                 run._corr.append({"stream": "fault-injection", "sequence": seq[:t + 1], "impl": I[t], "model": M[t]})
+    # ---------------------------------------------------------------- (c) metadata: set / clear / retry after a failed write / reopen cycles
+    mseqs = []
+    for k in range(30 if quick else 300):
+        seq = ["tree new pmdisk 3"]
+        for _ in range(rng.randint(2, 9)):
+            r = rng.random()
+            val = rng.choice(["-", "-", "aa", "aabb", bytes(rng.getrandbits(8) for _ in range(rng.choice([1, 9, 70]))).hex()])
+            if r < 0.4:
+                seq += [f"meta set {val}", "meta get"]
+            elif r < 0.6:
+                # a failed write, then the caller retries the same value
+                seq += [f"arm {rng.choice([0, 0, 1])}", f"meta set {val}", "fired", "meta get", f"meta set {val}", "meta get"]
+            elif r < 0.85:
+                seq += ["close", "reopen 3", "meta get"]
+            else:
+                seq += [treegen.gen_mutator(rng, 8, ["set", "app"]), "meta get"]
+        seq += ["close", "reopen 3", "meta get"]
+        mseqs.append(seq)
+    mflat = [l for s2 in mseqs for l in s2]
+    mi = core.run_impl(zkh, mflat)
+    mm = core.run_lean("model", mflat)
+    pos = 0
+    for seq in mseqs:
+        I, Mo = mi[pos:pos + len(seq)], mm[pos:pos + len(seq)]
+        pos += len(seq)
+        run.count_case(("meta", tuple(seq)))
+        run.cov["traces_validated_against_impl"] += 1
+        expected, bad = "-", None
+        for t, (l, a) in enumerate(zip(seq, I)):
+            if l.startswith("meta set "):
+                armed = t > 0 and seq[t - 1].startswith("arm ")
+                fired = armed and I[t + 1] == "true"
+                if fired and a != "err":
+                    bad = f"the storage write of `{l}` failed but the call reported {a}"
+                    break
+                if a == "ok":
+                    expected = l.split(" ")[2]          # acknowledged
+                elif a != "err":
+                    bad = f"`{l}` -> {a}"
+                    break
+            elif l == "meta get" and a != expected:
+                bad = f"metadata reads {a} but the last acknowledged value is {expected} (line {t})"
+                break
+        if bad:
+            run.cov["impl_vs_spec_failures"] += 1
+            if len(run.violations) < 3:
+                run.violation({"property": run.pid, "kind": "impl-vs-spec", "stream": "metadata", "ops": seq, "detail": bad, "observed_impl": I, "model": Mo})
+        if I != Mo:
+            run.cov["impl_vs_model_disagreements"] += 1
+            run._corr = getattr(run, "_corr", [])
+            if len(run._corr) < 3:
+                t = next(t for t in range(len(seq)) if I[t] != Mo[t])
+                run._corr.append({"stream": "metadata", "sequence": seq[:t + 1], "impl": I[t], "model": Mo[t]})
+    run.cov["metadata_sequences"] = len(mseqs)
     run.cov["fault_sequences"] = cases
     run.cov["fault_sequences_where_the_failure_fired"] = fired_total
     run.sample({"fault_sequence": lines_all[0][:10], "impl": impl[:10]})
-    run.rules.append("(a) random histories on an on-disk tree under five storage configurations (cache size, flush period, mode, compression), metadata, close, reopen with the same or a different depth argument, every leaf / subtree root / proof / metadata compared, then further operations and a second reopen; (b) for every operation of every history and EVERY storage-write position k inside it (hook H1 fails the k-th put / put_batch / flush): the operation must report an error, and after reopening every position it did not address must hold the last acknowledged value; the model predicts the exact stored state; distinct = distinct (history, operation, k)")
+    run.rules.append("(c) metadata set / cleared / re-set after an injected write failure (the caller's retry) across close-reopen cycles, read back against the last acknowledged value; (a) random histories on an on-disk tree under five storage configurations (cache size, flush period, mode, compression), metadata, close, reopen with the same or a different depth argument, every leaf / subtree root / proof / metadata compared, then further operations and a second reopen; (b) for every operation of every history and EVERY storage-write position k inside it (hook H1 fails the k-th put / put_batch / flush): the operation must report an error, and after reopening every position it did not address must hold the last acknowledged value; the model predicts the exact stored state; distinct = distinct (history, operation, k)")
     run.confirm_witnesses()
